@@ -193,7 +193,14 @@ Example C15_nonvacuous :
        (false, false, 1%Z, 1%nat); (false, true, 2%Z, 2%nat)].
 Proof.
   split; [apply contract_satisfiable|].
-  exists nv_c, (exec nv_D nv_c nv_pre). split; vm_compute; reflexivity.
+  (* obtained FROM the theorem, instantiated with the identity pickle *)
+  destruct (resume_equiv nv_D (fun _ => true) (option (dobj nv_D)) None (fun o _ => Some o) (fun o _ => Some o)
+              nv_loads (fun _ => true) (contract_satisfiable _ _) nv_c nv_pre nv_post "det.pkl" 3 (fun _ => None))
+    as (_ & c' & s' & Hl & -> & -> & _ & _ & _).
+  - unfold HIGHEST_PROTOCOL. split; discriminate.
+  - reflexivity.
+  - reflexivity.
+  - exists nv_c, (exec nv_D nv_c nv_pre). split; [exact Hl|]. vm_compute. reflexivity.
 Qed.
 
 Example C15_rejection_nonvacuous :
